@@ -17,6 +17,7 @@ import (
 	"runtime"
 	"strconv"
 	"strings"
+	"time"
 
 	"kverif/internal/container"
 
@@ -457,10 +458,11 @@ func swGen(r *rand.Rand, tier string, n int, emit func(op string, tags ...string
 
 func init() {
 	registerStream(&Stream{
-		Name:   "sw",
-		Serial: true,
-		Rule:   "random call programs (Write incl. 0-length, Close repeated, GetWritten, calls after Close) on the real Writer with NONE/NONE and position-coded data; block sizes 1024..65536, jobs 1..64, size hint absent/exact/smaller/larger/multi-block, headerless or not, checksum 0/32/64; one third with a sink fault plan (k-th sink Write fails, transient or permanent; wrapped closer fails); distinct_nontrivial = distinct scenarios in which at least one byte was accepted",
-		Gen:    swGen,
-		Exec:   swExec,
+		Name:     "sw",
+		Watchdog: 120 * time.Second,
+		Serial:   true,
+		Rule:     "random call programs (Write incl. 0-length, Close repeated, GetWritten, calls after Close) on the real Writer with NONE/NONE and position-coded data; block sizes 1024..65536, jobs 1..64, size hint absent/exact/smaller/larger/multi-block, headerless or not, checksum 0/32/64; one third with a sink fault plan (k-th sink Write fails, transient or permanent; wrapped closer fails); distinct_nontrivial = distinct scenarios in which at least one byte was accepted",
+		Gen:      swGen,
+		Exec:     swExec,
 	})
 }
